@@ -46,6 +46,8 @@ def gen_data(rng, tier, latent=False):
     for v in range(n):
         if dtype == "int":
             base = sorted(rng.sample(range(0, 9), card[v]))
+            if rng.random() < .15:
+                base = [20240100 + b for b in base]          # integer codes beyond 2**24 (dates as YYYYMMDD, record ids) are still exact labels
         else:
             base = sorted(gen.state_labels(rng, card[v], "str"))
         labels.append(base)
@@ -399,8 +401,19 @@ def run_em(case, drv):
     for k in (1, 2, 3, 4):
         try:
             em = ExpectationMaximization(m, df)
+            kw_init = {}
+            if not lat and case["seed"] % 2:
+                # start from deterministic CPDs (every variable "always 0"): some rows are impossible under the start, and with nothing
+                # latent the first M-step is still the maximum-likelihood estimate from all rows
+                from pgmpy.factors.discrete import TabularCPD
+                kw_init["init_cpds"] = {}
+                for v in range(n):
+                    ps_ = [names[u] for u, w in case["edges"] if w == v]
+                    q_ = 2 ** len(ps_)
+                    kw_init["init_cpds"][names[v]] = TabularCPD(names[v], 2, [[1.0] * q_, [0.0] * q_], evidence=ps_ or None,
+                                                                evidence_card=[2] * len(ps_) or None)
             cpds = em.get_parameters(latent_card={names[v]: 2 for v in lat}, max_iter=k, seed=case["seed"], show_progress=False, n_jobs=1,
-                                     batch_size=case.get("batch_size", 1000))
+                                     batch_size=case.get("batch_size", 1000), **kw_init)
         except Exception as e:
             return fail(f"EM(max_iter={k}) raised {type(e).__name__}: {e}", latents=len(lat))
         got = {c.variable: c for c in cpds}
